@@ -75,11 +75,11 @@ def check_batch(lines, cfg_key, conns, props, workdir, tag, keep=False):
             for k in ("phase", "body", "id") if isinstance(f[k], str) and f[k].startswith("$")}
     write_module(workdir, "TC_" + tag, batch_consts(cfg_key, conns, long_names_of(lines), props, strs))
     env = dict(os.environ, MBH_TRACE=tf, MBH_OUT=of)
-    t0 = time.time()
+    t0 = time.monotonic()
     cmd = JAVA[:1] + ["-XX:+UseSerialGC", "-Xmx3g"] + JAVA[1:] + ["tlc2.TLC", "-workers", "1", "-metadir", os.path.join(workdir, "meta_" + tag),
                   "-noGenerateSpecTE", "-config", "TC_%s.cfg" % tag, "TC_%s.tla" % tag]
     pr = subprocess.run(cmd, cwd=workdir, env=env, stdout=subprocess.PIPE, stderr=subprocess.STDOUT, text=True)
-    wall = time.time() - t0
+    wall = time.monotonic() - t0
     ok = os.path.exists(of)
     if not ok:
         i = pr.stdout.find("Error:")
